@@ -17,6 +17,8 @@ pub enum Dec {
     Set(u32),
     Remove,
     SetRemove(u32),
+    /// two sets through one and the same entry handle
+    SetSet(u32, u32),
     Stop,
 }
 
@@ -42,6 +44,8 @@ pub enum VOp {
     Remove(usize),
     Truncate(usize),
     EntrySet(usize, u32),
+    /// entry(i), then set twice through that one handle
+    EntrySetTwice(usize, u32, u32),
     EntryRemove(usize),
     /// entry(i) only (to provoke the out-of-range panic), dropped at once
     EntryGet(usize),
@@ -67,6 +71,7 @@ impl VOp {
             VOp::Remove(i) => format!("remove({i})"),
             VOp::Truncate(n) => format!("truncate({n})"),
             VOp::EntrySet(i, v) => format!("entry({i}).set({v})"),
+            VOp::EntrySetTwice(i, a, b) => format!("e = entry({i}); e.set({a}); e.set({b})"),
             VOp::EntryRemove(i) => format!("entry({i}).remove"),
             VOp::EntryGet(i) => format!("entry({i})"),
             VOp::ForEach(d) => format!("for_each{d:?}"),
@@ -100,6 +105,7 @@ impl VOp {
             VOp::Remove(_) => "remove",
             VOp::Truncate(_) => "truncate",
             VOp::EntrySet(..) => "entry.set",
+            VOp::EntrySetTwice(..) => "entry.set x2",
             VOp::EntryRemove(_) => "entry.remove",
             VOp::EntryGet(_) => "entry",
             VOp::ForEach(_) => "for_each",
@@ -155,6 +161,13 @@ pub fn model_op(m: &mut Vec<u32>, op: &VOp) -> Ret {
             }
             Ret::Val(std::mem::replace(&mut m[*i], *v))
         }
+        VOp::EntrySetTwice(i, a, b) => {
+            if *i >= len {
+                return Ret::Panic;
+            }
+            m[*i] = *b;
+            Ret::Val(*a)
+        }
         VOp::Remove(i) | VOp::EntryRemove(i) => {
             if *i >= len {
                 return Ret::Panic;
@@ -198,6 +211,10 @@ pub fn model_op(m: &mut Vec<u32>, op: &VOp) -> Ret {
                         m[idx] = v;
                         m.remove(idx);
                     }
+                    Dec::SetSet(_, b) => {
+                        m[idx] = b;
+                        idx += 1;
+                    }
                 }
             }
             Ret::Visit(seen)
@@ -220,6 +237,7 @@ pub fn direct_messages(before: &[u32], op: &VOp) -> usize {
         VOp::Set(i, _) | VOp::EntrySet(i, _) | VOp::Remove(i) | VOp::EntryRemove(i) => {
             (*i < len) as usize
         }
+        VOp::EntrySetTwice(i, _, _) => 2 * (*i < len) as usize,
         VOp::EntryGet(_) | VOp::DropSubs => 0,
         VOp::Truncate(n) => (*n < len) as usize,
         VOp::ForEach(decs) | VOp::Entries(decs) => {
@@ -246,6 +264,10 @@ pub fn direct_messages(before: &[u32], op: &VOp) -> usize {
                     Dec::SetRemove(_) => {
                         n += 2;
                         m.remove(idx);
+                    }
+                    Dec::SetSet(..) => {
+                        n += 2;
+                        idx += 1;
                     }
                 }
             }
@@ -328,6 +350,15 @@ macro_rules! exec_impl {
                     after_call();
                     Ret::Val(r)
                 }
+                VOp::EntrySetTwice(i, a, b) => {
+                    let mut e = t.entry(*i);
+                    let _first = $Entry::set(&mut e, Tracked::new(*a));
+                    after_call();
+                    let r = $Entry::set(&mut e, Tracked::new(*b)).v;
+                    drop(e);
+                    after_call();
+                    Ret::Val(r)
+                }
                 VOp::EntryRemove(i) => {
                     let e = t.entry(*i);
                     let r = $Entry::remove(e).v;
@@ -364,6 +395,12 @@ macro_rules! exec_impl {
                                 $Entry::remove(e);
                                 after_call();
                             }
+                            Dec::SetSet(a, b) => {
+                                $Entry::set(&mut e, Tracked::new(a));
+                                after_call();
+                                $Entry::set(&mut e, Tracked::new(b));
+                                after_call();
+                            }
                         }
                     });
                     Ret::Visit(seen)
@@ -396,6 +433,12 @@ macro_rules! exec_impl {
                                 $Entry::set(&mut e, Tracked::new(v));
                                 after_call();
                                 $Entry::remove(e);
+                                after_call();
+                            }
+                            Dec::SetSet(a, b) => {
+                                $Entry::set(&mut e, Tracked::new(a));
+                                after_call();
+                                $Entry::set(&mut e, Tracked::new(b));
                                 after_call();
                             }
                         }
@@ -466,7 +509,13 @@ pub fn gen_vop(rng: &mut Rng, len: usize, vmax: u32, oob: bool, trav: bool, maxl
             9 if rng.chance(1, 2) => VOp::Truncate(rng.below(len + 3)),
             10 if grow_ok => VOp::PushBack(v(rng)),
             11 => match idx_in(rng, len) {
-                Some(i) => VOp::EntrySet(i, v(rng)),
+                Some(i) => {
+                    if rng.chance(1, 3) {
+                        VOp::EntrySetTwice(i, v(rng), v(rng))
+                    } else {
+                        VOp::EntrySet(i, v(rng))
+                    }
+                }
                 None => continue,
             },
             12 => match idx_in(rng, len) {
@@ -485,7 +534,14 @@ pub fn gen_decs(rng: &mut Rng, len: usize, vmax: u32, stop: bool) -> Vec<Dec> {
     (0..len)
         .map(|_| match rng.below(if stop { 9 } else { 8 }) {
             0..=3 => Dec::Keep,
-            4 | 5 => Dec::Set(rng.below(vmax as usize) as u32),
+            4 => Dec::Set(rng.below(vmax as usize) as u32),
+            5 => {
+                if rng.chance(1, 2) {
+                    Dec::SetSet(rng.below(vmax as usize) as u32, rng.below(vmax as usize) as u32)
+                } else {
+                    Dec::Set(rng.below(vmax as usize) as u32)
+                }
+            }
             6 => Dec::Remove,
             7 => Dec::SetRemove(rng.below(vmax as usize) as u32),
             _ => Dec::Stop,
